@@ -23,8 +23,10 @@ MCMemberAll   == MCMember \cup {<<"inAn", "A">>, <<"inAn", "An">>, <<"isAh", "A"
 \* other options of the same target: none; valid ones (strip=<path>, host=dst, tlsskipverify=true); malformed / unknown ones
 \* (redirect=3O1, redirect=200 - not a 3xx code -, proto=<unknown>, an option fabio does not know)
 MCOthersNone  == {""}
-MCOthersAll   == {"", "strip", "hostdst", "tlsskip", "redirect-alpha", "redirect-range", "proto-unknown", "unknown-option"}
-MCOthersValid == {"", "strip", "hostdst", "tlsskip"}
+MCRedirects   == {"redirect-valid"}
+MCOthersRedirect == {"", "redirect-valid"}
+MCOthersAll   == {"", "redirect-valid", "strip", "hostdst", "tlsskip", "redirect-alpha", "redirect-range", "proto-unknown", "unknown-option"}
+MCOthersValid == {"", "redirect-valid", "strip", "hostdst", "tlsskip"}
 MCSchemes == {"", "basic1", "nosuch"}
 MCKnown   == {"basic1"}
 MCCreds   == {"none", "good", "bad", "malformed"}
